@@ -1,67 +1,72 @@
 ------------------------------- MODULE Values -------------------------------
 (***************************************************************************)
 (* The IPLD data model as used by arguments, metadata and policies         *)
-(* (go-ipld-prime basicnode).  A value is a record whose field k is its    *)
-(* kind:                                                                   *)
-(*   [k |-> "null"]                                                        *)
-(*   [k |-> "bool",   v |-> BOOLEAN]                                       *)
-(*   [k |-> "int",    v |-> Int]                                           *)
-(*   [k |-> "float",  v |-> Int, sp |-> "fin"|"nan"|"pinf"|"ninf"]         *)
-(*                    a finite float is v/2 (TLC has no reals; halves give *)
-(*                    integral and fractional floats and a total order)    *)
-(*   [k |-> "string", v |-> sequence of code points]                       *)
-(*   [k |-> "bytes",  v |-> sequence of 0..255]                            *)
-(*   [k |-> "link",   v |-> an opaque identifier]                          *)
-(*   [k |-> "list",   v |-> sequence of values]                            *)
-(*   [k |-> "map",    v |-> sequence of [key |-> code points, val |-> value]]*)
+(* (go-ipld-prime basicnode).  A value is a TUPLE whose first element is   *)
+(* its kind (tuples, not records, so that TLC can order values of          *)
+(* different kinds inside one set):                                        *)
+(*   <<"null">>                                                            *)
+(*   <<"bool",   BOOLEAN>>                                                 *)
+(*   <<"int",    Int>>                                                     *)
+(*   <<"float",  Int, "fin"|"nan"|"pinf"|"ninf">>                          *)
+(*                    a finite float is the second element / 2 (TLC has no *)
+(*                    reals; halves give integral and fractional floats    *)
+(*                    and a total order)                                   *)
+(*   <<"string", sequence of code points>>                                 *)
+(*   <<"bytes",  sequence of 0..255>>                                      *)
+(*   <<"link",   an opaque identifier>>                                    *)
+(*   <<"list",   sequence of values>>                                      *)
+(*   <<"map",    sequence of entries <<key (code points), value>> >>       *)
 (*                    maps are ORDERED entry sequences: iteration order is *)
 (*                    observable through the selector iterator .[]         *)
 (* Outcomes of selector resolution additionally use                        *)
-(*   [k |-> "novalue"]   an optional segment did not match                 *)
-(*   [k |-> "error"]     resolution failed                                 *)
-(*   [k |-> "dontcare"]  the property leaves this point open               *)
-(* JSON export/import uses exactly this shape (ToJson / ndJsonDeserialize). *)
+(*   <<"novalue">>   an optional segment did not match                     *)
+(*   <<"error">>     resolution failed                                     *)
+(*   <<"dontcare">>  the property leaves this point open                   *)
+(* JSON export/import uses exactly this shape (arrays).                     *)
 (***************************************************************************)
 EXTENDS Integers, Sequences, FiniteSets
 
-Null        == [k |-> "null"]
-Bool(b)     == [k |-> "bool", v |-> b]
-Int_(i)     == [k |-> "int", v |-> i]
-Float2(h)   == [k |-> "float", v |-> h, sp |-> "fin"]      \* the float h/2
-NaN         == [k |-> "float", v |-> 0, sp |-> "nan"]
-PInf        == [k |-> "float", v |-> 0, sp |-> "pinf"]
-NInf        == [k |-> "float", v |-> 0, sp |-> "ninf"]
-Str(cs)     == [k |-> "string", v |-> cs]
-Bytes(bs)   == [k |-> "bytes", v |-> bs]
-Link(id)    == [k |-> "link", v |-> id]
-List(vs)    == [k |-> "list", v |-> vs]
-Map(es)     == [k |-> "map", v |-> es]
-Entry(key, val) == [key |-> key, val |-> val]
+K(x)  == x[1]           \* kind
+Pv(x) == x[2]           \* payload
+Sp(x) == x[3]           \* float class
 
-NoValue  == [k |-> "novalue"]
-Error    == [k |-> "error"]
-DontCare == [k |-> "dontcare"]
+Null        == <<"null">>
+Bool(b)     == <<"bool", b>>
+Int_(i)     == <<"int", i>>
+Float2(h)   == <<"float", h, "fin">>      \* the float h/2
+NaN         == <<"float", 0, "nan">>
+PInf        == <<"float", 0, "pinf">>
+NInf        == <<"float", 0, "ninf">>
+Str(cs)     == <<"string", cs>>
+Bytes(bs)   == <<"bytes", bs>>
+Link(id)    == <<"link", id>>
+List(vs)    == <<"list", vs>>
+Map(es)     == <<"map", es>>
+Entry(key, val) == <<key, val>>
 
-IsValue(x) == x.k \notin {"novalue", "error", "dontcare"}
+NoValue  == <<"novalue">>
+Error    == <<"error">>
+DontCare == <<"dontcare">>
+
+IsValue(x) == K(x) \notin {"novalue", "error", "dontcare"}
 
 \* Lookup in an ordered map: the first entry with that key, or NoValue.
 RECURSIVE LookupEntries(_, _)
 LookupEntries(es, key) ==
   IF es = <<>> THEN NoValue
-  ELSE IF Head(es).key = key THEN Head(es).val
+  ELSE IF Head(es)[1] = key THEN Head(es)[2]
   ELSE LookupEntries(Tail(es), key)
 
-MapValues(m) == [i \in 1..Len(m.v) |-> m.v[i].val]
+MapValues(m) == [i \in 1..Len(Pv(m)) |-> Pv(m)[i][2]]
 
-\* Deep equality as datamodel.DeepEqual: same kind and same content (records compare
-\* field-wise; k is compared first, so values of different kinds are simply unequal).
-SameValue(a, b) == a.k = b.k /\ a = b
+\* Deep equality as datamodel.DeepEqual: same kind and same content.
+SameValue(a, b) == K(a) = K(b) /\ a = b
 
 \* An equality test whose answer the property leaves open: NaN is involved.
 RECURSIVE HasNaN(_)
 HasNaN(x) ==
-  CASE x.k = "float" -> x.sp = "nan"
-    [] x.k = "list"  -> \E i \in 1..Len(x.v) : HasNaN(x.v[i])
-    [] x.k = "map"   -> \E i \in 1..Len(x.v) : HasNaN(x.v[i].val)
+  CASE K(x) = "float" -> Sp(x) = "nan"
+    [] K(x) = "list"  -> \E i \in 1..Len(Pv(x)) : HasNaN(Pv(x)[i])
+    [] K(x) = "map"   -> \E i \in 1..Len(Pv(x)) : HasNaN(Pv(x)[i][2])
     [] OTHER -> FALSE
 =============================================================================
